@@ -102,6 +102,7 @@ type FnContract struct {
 	ConsType  string
 	CallSites []*CallSiteAssert
 	Captures  []*Clause
+	EnvAssume []*Clause // environment assumptions on the state at the first acquire, used only for obligations of the clause's properties
 	Pkg       string
 	File      string
 	Line      int
@@ -156,6 +157,7 @@ type SpecDB struct {
 	UFs      map[string]*UFDecl
 	Tracked  map[string]bool
 	Assumed    []string // `assumption [C18] text` directives: stated, unchecked assumptions copied into the evidence
+	EnvProps   map[string]bool // properties that have envassume clauses
 	RaceStrict map[string]bool
 	SweepWrappers map[string]bool
 	RawAxioms []RawAxiom
@@ -227,7 +229,7 @@ func parseLabel(s string) (label string, tags []string, rest string) {
 var directiveKW = map[string]bool{"assumption": true, "autotagfn": true, "globalinv": true, "uf": true, "tracked": true, "cond": true, "callers": true, "racestrict": true, "sweepwrappers": true, "rawaxiom": true, "autotag": true, "option": true, "import": true, "ghost": true, "pred": true, "inv": true, "lockinv": true, "protect": true,
 	"typeinv": true, "lockorder": true, "guards": true, "func": true, "dyn": true, "lemma": true, "mono": true, "spec": true}
 var clauseKW = map[string]bool{"requires": true, "ensures": true, "loop": true, "locks": true, "modifies": true, "inline": true,
-	"trusted": true, "entry": true, "optional": true, "blocking": true, "pure": true, "callsite": true, "captures": true,
+	"trusted": true, "entry": true, "optional": true, "blocking": true, "pure": true, "callsite": true, "captures": true, "envassume": true,
 	"interruptible_by": true, "constructor": true, "delta": true, "decreases": true, "fresh_writes": true, "onassign": true, "deadreturn": true}
 
 // loadSpecFile parses one contract file. goFile: lines are taken from //@ comments.
@@ -546,6 +548,16 @@ func (db *SpecDB) loadSpecFile(path string, pkgPath string, goFile bool) {
 				cur.Ensures = append(cur.Ensures, mkClause(it.text, it.n))
 			case "captures":
 				cur.Captures = append(cur.Captures, mkClause(it.text, it.n))
+			case "envassume":
+				ec := mkClause(it.text, it.n)
+				cur.EnvAssume = append(cur.EnvAssume, ec)
+				if db.EnvProps == nil {
+					db.EnvProps = map[string]bool{}
+				}
+				for _, t := range ec.Tags {
+					db.EnvProps[t] = true
+				}
+				db.Assumed = append(db.Assumed, it.text+"  (environment assumption of "+cur.Key+", used only for the obligations of the properties named in its tag)")
 			case "decreases":
 				cur.Dec = mkClause(it.text, it.n)
 			case "onassign":
